@@ -337,6 +337,14 @@ func (g *generator) typePrinter(f *file, addImports map[string]string, aliases m
 
 				// Using a named import.
 				if imp.Name != nil {
+					switch imp.Name.Name {
+					case "_":
+						// A blank import does not bind a name.
+						continue
+					case ".":
+						// A dot import puts the names in the file's scope.
+						return ""
+					}
 					return imp.Name.Name
 				}
 
